@@ -110,6 +110,8 @@ class HashTable:
 
     def __getitem__(self, keys):
         if isinstance(self._values, Number):
+            if not isinstance(keys, Number):
+                self._get_indices(keys)  # refuses absent keys, as for array-valued tables
             return (
                 self._values
                 if isinstance(keys, Number)
